@@ -127,4 +127,6 @@ type External struct {
 	Bin  string
 	Args []string
 	Env  string // environment variable carrying "worker,tier,seed" / "case,tier,seed,n" / "replay,path"
+	// ExtraEnv is added to the worker's environment.
+	ExtraEnv []string
 }
